@@ -5,6 +5,8 @@ import (
 	"errors"
 	"fmt"
 	"os"
+	"os/exec"
+	"path/filepath"
 	"strconv"
 	"strings"
 	"time"
@@ -42,6 +44,105 @@ func c09Corruptions(rec []byte) map[string][]byte {
 		m[fmt.Sprintf("truncated@%d", i)] = rec[:i]
 	}
 	return m
+}
+
+// c09Physical: physical damage to the table files of a loaded disk store. A validator loads the CRL and is restarted
+// twice (so that the records sit in a table file, not only in the journal); then, for every byte of every *.ldb file, a
+// copy of the work_dir with that byte damaged is handed to a fresh validator (origin down) and the listed certificate
+// is presented. Allowed: Provision fails, the lookup fails, or the certificate is reported revoked. Never: accepted.
+var c09PhysOutcomes = map[string]int{}
+
+func c09Physical(chk *fw.Check, c *c08Cast, tier string) (evals, nontrivial int) {
+	listed := c.probes[0]
+	base := FreshDir("c09img")
+	defer os.RemoveAll(base)
+	step := func(dir string, serve bool) (v Verdict, provErr string) {
+		seqWorld(func() {
+			w := NewCW(CWOpt{Disk: true, SigMode: config.SignatureValidationModeVerify, Dir: dir})
+			if serve {
+				w.Net.Serve(urlA, "v1", c.vers[1])
+			} else {
+				w.Net.Down(urlA)
+			}
+			if err := w.Provision(); err != nil {
+				provErr = err.Error()
+				return
+			}
+			vsched.Drain()
+			v = w.Lookup(listed, c.chain(listed))
+			w.Chk.Cleanup()
+		})
+		return
+	}
+	if v, e := step(base, true); e != "" || v.String() != "REVOKED" {
+		chk.Violation("C09|harness|physical-setup", "setup: "+e+" "+v.String()+" "+v.Err, nil)
+		return
+	}
+	for i := 0; i < 2; i++ {
+		if v, e := step(base, false); e != "" || v.String() != "REVOKED" {
+			chk.Violation("C09|harness|physical-setup", fmt.Sprintf("setup: restart %d over the loaded store: %s %s %s", i+1, e, v, v.Err), nil)
+			return
+		}
+	}
+	var tables []string
+	filepath.Walk(base, func(p string, info os.FileInfo, err error) error {
+		if err == nil && !info.IsDir() && strings.HasSuffix(p, ".ldb") {
+			tables = append(tables, p)
+		}
+		return nil
+	})
+	if len(tables) == 0 {
+		chk.Violation("C09|harness|physical-setup", "setup: no table file in the store directory after two restarts", nil)
+		return
+	}
+	masks := []byte{0xff}
+	if tier == "thorough" {
+		masks = []byte{0x01, 0x02, 0x04, 0x08, 0x10, 0x20, 0x40, 0x80, 0xff}
+	}
+	for _, t := range tables {
+		rel, _ := filepath.Rel(base, t)
+		data, _ := os.ReadFile(t)
+		for off := range data {
+			for _, m := range masks {
+				dir := FreshDir("c09dmg")
+				if out, err := exec.Command("cp", "-a", base+"/.", dir).CombinedOutput(); err != nil {
+					chk.Violation("C09|harness|physical-copy", string(out), nil)
+					os.RemoveAll(dir)
+					return
+				}
+				d := append([]byte{}, data...)
+				d[off] ^= m
+				os.WriteFile(filepath.Join(dir, rel), d, 0644)
+				v, provErr := step(dir, false)
+				os.RemoveAll(dir)
+				evals++
+				if provErr != "" || v.Err != "" {
+					nontrivial++ // the damage was noticed
+				}
+				switch {
+				case provErr != "":
+					c09PhysOutcomes["provision fails"]++
+				case v.Panic != "":
+					c09PhysOutcomes["panic"]++
+				case v.Err != "":
+					c09PhysOutcomes["lookup error"]++
+				case v.Revoked:
+					c09PhysOutcomes["revoked"]++
+				default:
+					c09PhysOutcomes["accepted"]++
+				}
+				if provErr == "" && v.Panic != "" {
+					chk.Violation("C09|panic|damaged-table-file", fmt.Sprintf("byte %d of %s xor %#x: lookup panicked: %s", off, filepath.Base(t), m, v.Panic), nil)
+					continue
+				}
+				if provErr == "" && v.Err == "" && !v.Revoked {
+					chk.Violation("C09|damaged-table-file-answered-not-revoked", fmt.Sprintf("byte %d of %d of table file %s damaged (xor %#x): the restarted validator accepts the listed certificate", off, len(data), filepath.Base(t), m),
+						map[string]interface{}{"offset": off, "mask": m})
+				}
+			}
+		}
+	}
+	return
 }
 
 // RunC09 is the entry point of the C09 check.
@@ -230,6 +331,9 @@ func RunC09(tier string, args []string) int {
 			}
 		}
 	}
+	physEvals, physNoticed := c09Physical(chk, c, tier)
+	evals += physEvals
+	nontrivial += physNoticed
 	// schedule scenarios
 	bound, maxExec := 2, 200000
 	perScenario, nshards := 100*time.Second, 16
@@ -271,7 +375,10 @@ func RunC09(tier string, args []string) int {
 		"outcome_classes":                 outcomes.Counts(),
 		"samples":                         samples,
 		"exhaustive":                      exhaustive,
+		"damaged_table_file_runs":         physEvals,
+		"damaged_table_file_outcomes":     c09PhysOutcomes,
 	}
+	fmt.Printf("  damaged table file: %d runs, outcomes %v\n", physEvals, c09PhysOutcomes)
 	return chk.Finish(cov)
 }
 
